@@ -280,7 +280,7 @@ func Harness_Act(n int, layout int, street int, limit int, cur int, op int) {
 
 	// C04: every other seat is refused, state untouched (same operation, same amount)
 	before := vCloneState(gs)
-	for j := 0; j < n; j++ {
+	for j := 0; j < n && vWants("C04."); j++ {
 		if j == cur {
 			continue
 		}
@@ -290,8 +290,10 @@ func Harness_Act(n int, layout int, street int, limit int, cur int, op int) {
 		vAssert(same, "C04.other-seat-leaves-state-unchanged")
 	}
 	// table operations in the wrong phase
-	vAssert(g.Next() != nil && g.ReadyForAll() != nil && g.PayAnte() != nil && g.PayBlinds() != nil, "C04.table-ops-refused-during-betting")
-	vAssert(vSameState(before, gs), "C04.table-ops-leave-state-unchanged")
+	if vWants("C04.") {
+		vAssert(g.Next() != nil && g.ReadyForAll() != nil && g.PayAnte() != nil && g.PayBlinds() != nil, "C04.table-ops-refused-during-betting")
+		vAssert(vSameState(before, gs), "C04.table-ops-leave-state-unchanged")
+	}
 
 	offered := vhHas(list, vhOps[op])
 	err := vhDo(me, op, x)
